@@ -35,6 +35,57 @@ XML = ("xmlKeepBlanksDefault", "xmlSetStructuredErrorFunc", "xmlInitParser", "xm
 CONTAINER = re.compile(r"std::(vector|map|multimap|set|multiset|unordered_map|unordered_set|list|deque)<|^(?:libcellml::)?\w*(Ptrs|List|Map|Stack|Library)\b")
 
 
+# static-storage variables that are not hidden per-call state (read from the AST of every TU; anything else is an obligation failure)
+STATIC_ALLOW = {
+    ("xmldoc.cpp", "mathMLDTD"): "XmlDoc::parseMathML: the decompressed MathML DTD, a constant computed once (independent of every argument)",
+    ("debug.cpp", "generatorProfile"): "debug.cpp: developer print helpers, not reachable from any service entry point",
+}
+
+
+def static_state_scan():
+    """Every variable with static storage duration and a non-const type declared in namespace libcellml (function-local statics,
+    namespace-scope variables, static data members) in every src/*.cpp: [(tu, enclosing decl, name, type, line)].  Text AST dump."""
+    import concurrent.futures
+    from common import GUARD, include_flags
+    tus = sorted(f for f in os.listdir(SRC) if f.endswith(".cpp"))
+
+    def one(tu):
+        rc, out, err, _ = run(["clang++", "-std=c++17", "-fsyntax-only", "-D" + GUARD, "-w"] + include_flags() +
+                              ["-Xclang", "-ast-dump", "-Xclang", "-ast-dump-filter=libcellml::", os.path.join(SRC, tu)], timeout=600)
+        if rc != 0:
+            raise Undecided("extraction: clang could not read %s: %s" % (tu, err[-500:]))
+        found, owner, nsec = [], "", 0
+        for l in out.splitlines():
+            m = re.match(r"Dumping (libcellml::.*):$", l)
+            if m:
+                owner = m.group(1)
+                nsec += 1
+                continue
+            if "VarDecl" not in l or "ParmVarDecl" in l:
+                continue
+            m = re.match(r"^([|` -]*)VarDecl 0x[0-9a-f]+ <([^>]*)> (?:col:\d+|line:\d+:\d+)(?: (?:implicit|used|referenced|invalid))* (\w+) '([^']*)'(?::'[^']*')?(.*)$", l)
+            if not m:
+                continue
+            depth, loc, name, ty, rest = m.groups()
+            top = depth == ""
+            if not top and not re.search(r"\bstatic\b", rest):
+                continue                    # automatic local
+            if re.search(r"\b(constexpr)\b", rest) or (ty.startswith("const ") and not ty.rstrip().endswith("*")) or ty.rstrip().endswith("*const"):
+                continue
+            if top and re.search(r"\bextern\b", rest):
+                continue
+            lm = re.search(r"(/[^:>]+):(\d+)", loc)
+            if lm and not lm.group(1).startswith(SRC):
+                continue                    # a system header's variable
+            found.append((tu, owner, name, ty, loc))
+        if nsec == 0:
+            raise Undecided("extraction: no libcellml:: declaration dumped for %s" % tu)
+        return found
+    with concurrent.futures.ThreadPoolExecutor(14) as ex:
+        res = list(ex.map(one, tus))
+    return len(tus), sorted(set(x for r in res for x in r))
+
+
 def walk(n):
     yield n
     for c in n.get("inner", []):
@@ -132,6 +183,24 @@ def main(argv):
             chk.functions_under_contract += [{"function": cn[2:], "lowered_as": cn, "file": "/repo/src/" + tuname, "lines": [], "loops": 0, "text_sha256": ""} for cn in eff]
             chk.extra_cov.setdefault("scratch_members_tracked", {})[tuname] = flags
         chk.extra_cov["effect_slices"] = total_eff
+        # frame fact over the whole library: no mutable static-storage state (function-local statics, namespace-scope variables)
+        ntu, statics = static_state_scan()
+        bad = [x for x in statics if (x[0], x[2]) not in STATIC_ALLOW]
+        chk.extra_cov["static_storage_scan"] = {"translation_units": ntu, "mutable_static_variables": [list(x) for x in statics],
+                                                "allow_list": {"%s:%s" % k: v for k, v in STATIC_ALLOW.items()}}
+        chk.native_facts.append(("AST of all %d src/*.cpp: no mutable static-storage variable in namespace libcellml besides the allow-list "
+                                 "(state that would survive a call and be shared by every instance)" % ntu, not bad, "; ".join("%s %s::%s" % (x[0], x[1], x[2]) for x in statics)))
+        for tu_, owner, name, ty, loc in bad:
+            from common import OUTROOT, write_json
+            path = os.path.join(OUTROOT, "out", "replay", "C12", "static_state__%s__%s.json" % (tu_.replace(".", "_"), name))
+            what = ("hidden state: %s declares the static-storage variable '%s' of mutable type %s (%s); it survives the call and is shared by every "
+                    "service instance in the process, so a result can depend on earlier calls" % (owner, name, ty, tu_))
+            write_json(path, {"property": "C12", "failed_obligation": {"id": "static_state.%s.%s" % (tu_, name), "class": "frame", "function": owner, "desc": what,
+                                                                      "file": os.path.join(SRC, tu_), "line": loc},
+                              "counterexample": {}, "replayed_on_real_code": None,
+                              "verifier_output": "clang AST: VarDecl %s '%s' static, non-const, in %s" % (name, ty, owner),
+                              "how_to_rerun": "cd /verif && ./check C12 quick"})
+            chk.violations.append((what, path, " no-failing-input-found"))
         chk.extra_cov["documented_state_allow_list"] = DOCUMENTED_STATE
         d0 = os.path.join(wd, "native")
         os.makedirs(d0, exist_ok=True)
@@ -150,12 +219,13 @@ def main(argv):
         "the allow-list of documented object state in checks/C12.py",
         "libxml2's xmlKeepBlanksDefault(v) sets a process-global to v (taken from its documentation); its default is 1",
         "container members are recognised by their declared type (std containers and the library's *Ptrs/*List/*Map aliases)",
+        "static-storage allow-list in checks/C12.py (mathMLDTD constant memo; debug.cpp helper)",
     ]
     c.explanation = ("Frame/typestate obligations over mechanically extracted effect slices of validator.cpp, parser.cpp, analyser.cpp, importer.cpp, printer.cpp: "
                      "issue list emptied before anything is added and on every path; container members of the service object reset before use in the same "
                      "call unless documented state; xmlKeepBlanksDefault left at its default. Complete for the finite abstraction. 'The input model is not "
                      "mutated' and 'same result on a fresh instance' for data the abstraction drops are NOT decided.")
-    c.not_covered = ["mutation of the input model (const-correctness is not checked here)", "scalar members, static locals (mathMLDTD cache)", "Generator"]
+    c.not_covered = ["mutation of the input model (const-correctness is not checked here)", "scalar members of the service objects", "Generator"]
 
     def replay(chk, h, o, ce):
         out = getattr(chk, "native_out", "")
